@@ -105,8 +105,12 @@ def _fresh(curve, scenario, seed):
 def _ops(scenario, k1, k2, other):
     """(operation of the preempted thread, operations of the second thread) on the shared object"""
     a_ops = {"mul": lambda P: _affine(P * k1), "affine": lambda P: _affine(P.to_affine()),
-             "muladd": lambda P: _affine(P.mul_add(k1, other, k2))}
-    b_ops = [lambda P: _affine(P * k2), lambda P: _affine(P + other), lambda P: (int(P.x()), int(P.y())),
+             "muladd": lambda P: _affine(P.mul_add(k1, other, k2)),
+             # the accessors and the comparison themselves as the preempted operation (they read the coordinates while a
+             # second thread may rescale the point in place)
+             "xy": lambda P: (int(P.x()), int(P.y()), int(P.y()), int(P.x())),
+             "eq": lambda P: (P == other, P == P, P + other == other + P)}
+    b_ops = [lambda P: _affine(P.scale()), lambda P: _affine(P * k2), lambda P: _affine(P + other), lambda P: (int(P.x()), int(P.y())),
              lambda P: P == other, lambda P: _affine(P.mul_add(k2, other, k1)), lambda P: _affine(P.double())]
     return a_ops, b_ops
 
